@@ -84,6 +84,13 @@ Theorem C17_basic_spelling_needs_a_backslash : forall gb pq nl p,
   forallb (fun c => negb (Nat.eqb c c_bs)) p = true -> spell gb pq nl p = p.
 Proof. exact spell_no_backslash. Qed.
 Print Assumptions C17_basic_spelling_needs_a_backslash.
+(* GNU's "{,n}" is "{0,n}": the lower bound is written for the engine (in posix-extended by a pass of its own, which touches
+   nothing in a pattern without a "{"; in grep and posix-basic by the operator spelling, where the interval opens) *)
+Theorem C17_open_interval_spelling_needs_a_brace : forall p,
+  forallb (fun c => negb (Nat.eqb c c_lbrace)) p = true -> xopen XT p = p.
+Proof. exact xopen_no_brace. Qed.
+Print Assumptions C17_open_interval_spelling_needs_a_brace.
+
 Theorem C17_basic_spelling_fixed_point : forall gb pq nl p, spell gb pq nl (spell gb pq nl p) = spell gb pq nl p.
 Proof. exact spell_idempotent. Qed.
 Print Assumptions C17_basic_spelling_fixed_point.
@@ -136,4 +143,12 @@ Example C17_scanners_witness :
   gnu_out 20 true [91; 91; 46; 45; 46; 93; 120; 93] = None /\
   collp true CT [91; 91; 46; 45; 46; 93; 120; 93] = [91; 91; 46; 45; 46; 93; 120; 93] /\
   eng_members true false [91; 46; 45; 46; 93; 120; 93] = Some [120; 93].
+Proof. vm_compute. repeat split. Qed.
+
+(* posix-extended "(a{,2}){,}[{,]" -> "(a{0,2}){0,}[{,]" ; posix-basic "a\{,2\}\(\{,1\}" -> "a\{0,2\}\(\{,1\}" (no interval at the start of a group) *)
+Example C17_open_interval_witness :
+  inside_group true true false false false [40; 97; 123; 44; 50; 125; 41; 123; 44; 125; 91; 123; 44; 93]
+    = [40; 97; 123; 48; 44; 50; 125; 41; 123; 48; 44; 125; 91; 123; 44; 93] /\
+  spell false true false [97; 92; 123; 44; 50; 92; 125; 92; 40; 92; 123; 44; 49; 92; 125]
+    = [97; 92; 123; 48; 44; 50; 92; 125; 92; 40; 92; 123; 44; 49; 92; 125].
 Proof. vm_compute. repeat split. Qed.
